@@ -62,6 +62,11 @@ pub struct VirtioDev {
     pub guest_page_size: u32,
     pub log: Vec<TEvent>,
     pub resets: usize,
+    /// 0 = none; 1 = FEATURES_OK never sticks (the device refuses the feature subset); 2 = slow
+    /// reset (two status reads after a reset still return the old value).
+    pub status_quirk: u8,
+    pub stale_status: u32,
+    pub stale_status_reads: u32,
     /// Number of notifications received per queue.
     pub notified: Vec<u32>,
 }
@@ -82,6 +87,9 @@ impl VirtioDev {
             guest_page_size: 0,
             log: vec![],
             resets: 0,
+            status_quirk: 0,
+            stale_status: 0,
+            stale_status_reads: 0,
             notified: vec![0; nqueues],
         }
     }
@@ -102,10 +110,26 @@ impl VirtioDev {
             q.a = QueueAddrs::default();
         }
     }
+    /// What a status read returns (quirk 2: the reset is slow, the first reads after it still
+    /// return the old value).
+    pub fn read_status(&mut self) -> u32 {
+        if self.stale_status_reads > 0 {
+            self.stale_status_reads -= 1;
+            return self.stale_status;
+        }
+        self.status
+    }
     pub fn set_status(&mut self, s: u32) {
         self.log.push(TEvent::SetStatus(s));
         if s == 0 {
+            if self.status_quirk == 2 {
+                self.stale_status = self.status;
+                self.stale_status_reads = 2;
+            }
             self.reset();
+        } else if self.status_quirk == 1 {
+            // The device does not accept the feature subset: FEATURES_OK does not stick.
+            self.status = s & !ST_FEATURES_OK;
         } else {
             self.status = s;
         }
@@ -181,7 +205,7 @@ impl Transport for ModelTransport {
     fn get_status(&self) -> DeviceStatus {
         let mut d = self.dev.borrow_mut();
         d.log.push(TEvent::GetStatus);
-        DeviceStatus::from_bits_retain(d.status)
+        DeviceStatus::from_bits_retain(d.read_status())
     }
     fn set_status(&mut self, status: DeviceStatus) {
         self.dev.borrow_mut().set_status(status.bits());
